@@ -115,3 +115,38 @@ for _pid, _hook, _text in [
     NOT_APPLICABLE.pop(_pid, None)
 
 PROPS["C05"]["bounded"] = ["checks.bounded_hooks:sync_states"]
+
+GRAPH_NOTE = ("The local edge operations every parse is built from (descend_from_node, clone_as_source, bridge_with_node, "
+              "drop_parent/child, EdgeRegister) are proved against their contracts for all heaps (unbounded, E1); the "
+              "whole-graph clauses are evaluated on the real parser over an enumerated set of selections of the shipped "
+              "suite (bounded stand-in, bound in the evidence; never counted as proved).")
+register(
+    "C06",
+    modules=["contracts.c16", "contracts.node_edges"],
+    bounded=["checks.bounded_hooks:graph_wf"],
+    level="other",
+    technique="contract-based deductive verification of the edge operations (own VC generator over the real source + z3) "
+              "plus a bounded native check of the parsed graphs",
+    explanation="edge bookkeeping proved (both ends recorded, registers shared only by bridging); acyclicity, single root, "
+                "unique ids, unique producer, one net, clone sources not runnable checked on parsed graphs (bounded)",
+    trusted=["virttest.cartesian_config parser (outside /repo)"],
+    undecided_clauses=["generated suites with random setup DAGs (only the shipped suite is enumerated)"],
+)
+LEVEL_TEXT["C06"] = GRAPH_NOTE
+register(
+    "C09",
+    modules=["contracts.c16", "contracts.node_edges"],
+    bounded=["checks.bounded_hooks:graph_copies"],
+    level="other",
+    technique="contract-based deductive verification of bridging and the shared registers (own VC generator + z3) plus a "
+              "bounded native comparison of per-worker subgraphs, lazy vs eager parsing and repeated parses",
+    explanation="bridge_with_node proved symmetric with shared registers; register isolation between classes proved; "
+                "worker-copy equivalence, lazy == eager and determinism compared on parsed graphs (bounded)",
+    trusted=["virttest.cartesian_config parser (outside /repo)"],
+    undecided_clauses=["lazy expansion under real interleavings with running tests (the expansion loop is replayed in "
+                       "shuffled orders without test execution)"],
+)
+LEVEL_TEXT["C09"] = GRAPH_NOTE
+for _pid in ("C06", "C09"):
+    NOT_APPLICABLE.pop(_pid, None)
+
